@@ -45,6 +45,14 @@ def generate(rng, tier, seed):
         c = Case("random" if nd >= 3 else f"search:{nd}-decimal-nibbles", {"pan_len": len(pan)})
         one(c, cvk, pan, exp, svc)
         yield c
+    # consecutive calls with the same CVK and PAN but different expiry / service code (CVV1 / CVV2 / iCVV in a row)
+    for _ in range(40 if tier == "quick" else 300):
+        cvk = rb(rng, 16)
+        pan = digits(rng, rng.choice([0, 5, 12, 13, 14, 15, 15, 16, 19]))
+        for _ in range(4):
+            c = Case("same-key-and-pan-sequence", {"pan_len": len(pan)})
+            one(c, cvk, pan, digits(rng, 4), rng.choice(["101", "000", "999", digits(rng, 3)]))
+            yield c
     # structured: every PAN length, keys with equal halves, all-zero / all-F keys
     for ln in range(0, 20):
         for cvk in (bytes(16), b"\xff" * 16, rb(rng, 8) * 2, rb(rng, 16)):
